@@ -11,14 +11,16 @@
 //     -- never by line.  Methods: iter iter_mut into_iter values values_mut keys into_keys into_values drain retain,
 //     and "for" for `for pat in <hash-typed expr>` without an explicit method.
 //     An expression is *hash-typed* by a syntactic over-approximation (taint): a declared binding of (1); a field access
-//     whose member name is a hash-typed struct field of (1); any method call / index / reference / deref / `?` on a
-//     hash-typed expression (so `m.remove(&k)`, `m.get(&k).unwrap()`, `m.entry(k).or_insert(..)` stay hash-typed: the
+//     whose member name is a hash-typed struct field of (1); a call of a function / method of these files whose written
+//     return type mentions HashMap / HashSet (so `let func_mapping = if .. { Self::recalculate_ids(..) } else
+//     { Self::get_mapping_generic(..) }` is hash-typed: `if` / `match` / block expressions take the type of their tails);
+//     any method call / index / reference / deref / `?` on a hash-typed expression (so `m.remove(&k)`, `m.get(&k).unwrap()`, `m.entry(k).or_insert(..)` stay hash-typed: the
 //     values of a map may be maps again, as in resolve_on_end); identifiers bound by a `let` / `if let` / `while let` /
 //     `match` / `for` pattern from a hash-typed expression; parameters of closures passed to a method of a hash-typed
 //     receiver.  The over-approximation lists some iterations over Vec values of maps; the hand-written classification
 //     says so.  It cannot miss an iteration over a HashMap whose type is written somewhere in these files or that is
-//     derived from one inside one function body; a HashMap returned by a call into another crate without a type
-//     annotation would be missed (none of the scanned functions does that today: see gen_hash_decls for "<return>").
+//     derived from one inside one function body; a HashMap returned by a call into *another crate / another file outside
+//     the scanned set* and bound without a type annotation would be missed.
 // (3) gen_other_sources : every use of std::time / std::thread / std::env / RandomState / SystemTime / Instant, every
 //     cast to a raw pointer type and every pointer-to-integer cast (`.. as *const T`, `p as usize` with p a pointer cast
 //     or `.as_ptr()` / `.as_mut_ptr()` / `.addr()`), keyed by (file, function or "<use>", kind, text).
@@ -75,6 +77,7 @@ struct Collected {
     fns: Vec<FnInfo>,
     decls: Vec<(String, String, String, String)>,   // (file, owner, name, type)
     hash_fields: BTreeSet<String>,
+    hash_fns: BTreeSet<String>,                     // names of functions / methods whose written return type mentions HashMap / HashSet
     other: Vec<(String, String, String, String)>,   // (file, fn, kind, text)
 }
 
@@ -146,6 +149,7 @@ fn collect_items(items: &[syn::Item], file: &str, out: &mut Collected) {
 // ---------------------------------------------------------------------------------------------
 struct Scan<'a> {
     hash_fields: &'a BTreeSet<String>,
+    hash_fns: &'a BTreeSet<String>,
     tainted: BTreeSet<String>,
     sites: Vec<(String, String)>,                 // (receiver text, method)
     decls: Vec<(String, String)>,                 // (name, type text)
@@ -198,12 +202,22 @@ impl<'a> Scan<'a> {
             syn::Expr::Group(g) => self.is_hash(&g.expr),
             syn::Expr::Unary(u) => self.is_hash(&u.expr),
             syn::Expr::Try(t) => self.is_hash(&t.expr),
-            syn::Expr::MethodCall(m) => self.is_hash(&m.receiver),
+            syn::Expr::MethodCall(m) => self.is_hash(&m.receiver) || self.hash_fns.contains(&m.method.to_string()),
             syn::Expr::Index(i) => self.is_hash(&i.expr),
-            syn::Expr::Call(c) => mentions_hash(&c.func),
+            syn::Expr::Call(c) => {
+                mentions_hash(&c.func)
+                    || matches!(&*c.func, syn::Expr::Path(p) if p.path.segments.last().map_or(false, |s| self.hash_fns.contains(&s.ident.to_string())))
+            }
             syn::Expr::Cast(c) => self.is_hash(&c.expr),
+            syn::Expr::If(i) => self.block_is_hash(&i.then_branch) || i.else_branch.as_ref().map_or(false, |(_, e)| self.is_hash(e)),
+            syn::Expr::Block(b) => self.block_is_hash(&b.block),
+            syn::Expr::Unsafe(b) => self.block_is_hash(&b.block),
+            syn::Expr::Match(m) => m.arms.iter().any(|a| self.is_hash(&a.body)),
             _ => false,
         }
+    }
+    fn block_is_hash(&self, b: &syn::Block) -> bool {
+        match b.stmts.last() { Some(syn::Stmt::Expr(e, None)) => self.is_hash(e), _ => false }
     }
     fn taint_pat(&mut self, p: &syn::Pat) {
         let mut v = vec![];
@@ -351,6 +365,8 @@ pub fn generate(repo: &str, out: &str) {
         crate::shape_changed!("Module::encode_internal not found in src/ir/module/mod.rs");
     }
     let hash_fields = col.hash_fields.clone();
+    let hash_fns: BTreeSet<String> = col.fns.iter().filter(|f| matches!(&f.sig.output, syn::ReturnType::Type(_, t) if mentions_hash(t))).map(|f| f.sig.ident.to_string()).collect();
+    col.hash_fns = hash_fns.clone();
     let mut sites: BTreeMap<(String, String, String, String), u32> = BTreeMap::new();
     let mut disp_count: BTreeMap<(String, String), u32> = BTreeMap::new();
     let mut fns_sorted: Vec<&FnInfo> = col.fns.iter().collect();
@@ -361,7 +377,7 @@ pub fn generate(repo: &str, out: &str) {
         let c = disp_count.entry((f.file.clone(), f.disp.clone())).or_default();
         *c += 1;
         let disp = if *c > 1 { format!("{} #{}", f.disp, c) } else { f.disp.clone() };
-        let mut sc = Scan { hash_fields: &hash_fields, tainted: BTreeSet::new(), sites: vec![], decls: vec![], other: vec![] };
+        let mut sc = Scan { hash_fields: &hash_fields, hash_fns: &hash_fns, tainted: BTreeSet::new(), sites: vec![], decls: vec![], other: vec![] };
         for a in f.sig.inputs.iter() {
             if let syn::FnArg::Typed(pt) = a {
                 if mentions_hash(&pt.ty) {
